@@ -22,8 +22,8 @@ DIVS = [1, 2, 3, 4, 6, 8, 12, 16, 24, 48, 480]
 TSIGS = [(4, 4), (3, 4), (2, 4), (6, 8), (3, 8), (2, 2), (5, 4), (9, 8), (4, 4), (3, 4)]
 ANACRUSIS = ["shift", "time_sig_change", "pad_bar"]
 AN_CODE = {"shift": 0, "time_sig_change": 1, "pad_bar": 2}
-VELS = [1, 30, 64, 127]
-MINPPQ = [0, 24, 480, 960]
+VELS = [1, 30, 64, 127, 100]
+MINPPQ = [0, 24, 480, 960, 0, 1, 100, 481]
 BPMS = [60, 80, 96, 100, 120, 125, 150, 70, 132, 48]
 PCS = [("C", 0), ("C", 1), ("D", 0), ("D", 1), ("E", 0), ("F", 0), ("F", 1), ("G", 0), ("G", 1), ("A", 0), ("A", 1), ("B", 0)]
 MAJ = ["Cb", "Gb", "Db", "Ab", "Eb", "Bb", "F", "C", "G", "D", "A", "E", "B", "F#", "C#"]
@@ -31,8 +31,9 @@ MIN = ["Ab", "Eb", "Bb", "F", "C", "G", "D", "A", "E", "B", "F#", "C#", "G#", "D
 # group structures over part indices (lists = PartGroup, ints = Part), per number of parts
 STRUCTS = {
     1: [[0], [0], [[0]], [[[0]]]],
-    2: [[0, 1], [0, 1], [[0, 1]], [[0], 1], [0, [1]], [[0], [1]], [[[0], 1]]],
-    3: [[0, 1, 2], [[0, 1], 2], [0, [1, 2]], [[0, 1, 2]], [[0], [1, 2]], [[[0, 1]], 2], [[0, [1, 2]]], [[0], [1], [2]]],
+    2: [[0, 1], [0, 1], [[0, 1]], [[0], 1], [0, [1]], [[0], [1]], [[[0], 1]], [[0, [1]]]],
+    3: [[0, 1, 2], [[0, 1], 2], [0, [1, 2]], [[0, 1, 2]], [[0], [1, 2]], [[[0, 1]], 2], [[0, [1, 2]]], [[0], [1], [2]],
+        [[[0], 1, 2]], [[0, [1]], 2]],
 }
 
 
@@ -71,7 +72,36 @@ def conflict_rule(mode):
     return lambda a, b: True
 
 
+def respects_quantifier(case):
+    """The property's condition, judged on the exact ticks of the description: no two notes of equal
+    pitch overlap within one (track, channel) class of the mode (zero-length notes may touch)."""
+    ppq, ftp, an, tk = expectation(case)
+    tc, _ = mode_labels(case)
+    seen = {}
+    for pi, ps in enumerate(case["parts"]):
+        for n in ps["notes"]:
+            on, off = tk(pi, n["t"]), tk(pi, n["t"] + sum(n["durs"]))
+            seen.setdefault((tc(pi, n["voice"]), n["pitch"]), []).append((on, off))
+    for iv in seen.values():
+        iv.sort()
+        for (a, b), (c, d) in zip(iv, iv[1:]):
+            if not (b <= c or d <= a):
+                return False
+        longs = [x for x in iv if x[0] != x[1]]
+        if any(a < g < b for g, h in iv if g == h for a, b in longs):
+            return False
+    return True
+
+
 def gen_case(rng, size, strict=None):
+    for _ in range(20):
+        case = gen_case1(rng, size, strict)
+        if respects_quantifier(case):
+            return case
+    return case
+
+
+def gen_case1(rng, size, strict=None):
     mode = rng.randint(0, 5)
     if strict is None:
         strict = rng.random() < 0.35
@@ -84,9 +114,12 @@ def gen_case(rng, size, strict=None):
     pickup = 0
     if rng.random() < 0.6 and ts0[0] >= 2:
         pickup = rng.randint(1, ts0[0] - 1)
-    irregular = None
-    if rng.random() < 0.15 and n_meas >= 3:
-        irregular = rng.randint(1, n_meas - 1)
+    irregular = {}  # measure index -> change of the number of beats
+    if rng.random() < 0.3 and n_meas >= 3:
+        k = rng.randint(0 if pickup else 1, n_meas - 1)
+        irregular[k] = 1 if rng.random() < 0.25 else -1
+        if rng.random() < 0.5 and k + 1 < n_meas:
+            irregular[k + 1] = 1 if rng.random() < 0.25 else -1  # two irregular measures in a row
     # measures in quarters from the start of the piece: (start, end, ts, has_explicit_ts)
     meas = []
     pos = Fraction(0)
@@ -101,8 +134,9 @@ def gen_case(rng, size, strict=None):
             cur = ts_change[1]
             new = True
         ln = Fraction(4 * cur[0], cur[1])
-        if irregular == i and cur[0] >= 2:
-            ln = Fraction(4 * rng.randint(1, cur[0] - 1), cur[1])
+        if i in irregular and cur[0] >= 2:
+            nb = cur[0] + 1 if irregular[i] > 0 else rng.randint(1, cur[0] - 1)
+            ln = Fraction(4 * nb, cur[1])
         meas.append([pos, pos + ln, cur, new or (i == 0 and not pickup)])
         pos += ln
     bts = sorted({m[2][1] for m in meas})
@@ -120,7 +154,9 @@ def gen_case(rng, size, strict=None):
         tempo_pos[rng.randint(1, len(meas) - 1)] = rng.choice(BPMS)
     parts = []
     taken = []  # (pitch, on_q, off_q, (part, voice)) in aligned musical time, for the no-overlap condition
-    nopick = rng.randrange(n_parts) if (pickup and n_parts >= 2 and rng.random() < 0.15) else None
+    # (no such part when the measure after the pickup is irregular: it would be that part's first measure and count as its pickup)
+    nopick = rng.randrange(n_parts) if (pickup and n_parts >= 2 and 0 not in irregular and rng.random() < 0.3) else None
+    tacet = rng.randrange(n_parts) if (n_parts >= 2 and rng.random() < 0.12) else None  # a part without notes
     for pi in range(n_parts):
         pm = [list(m) for m in meas]
         if nopick == pi:
@@ -130,11 +166,18 @@ def gen_case(rng, size, strict=None):
             pm[0][3] = True
         align = pm[0][1] if (pickup and len(pm) == len(meas)) else Fraction(0)  # quarter_map(0) = -align
         d0 = rng.choice(ok_divs + [3, 6, 12, 480, 480] if not need_even else ok_divs + [6, 12, 480, 480])
+        used = [q for p_ in parts for _, q in p_["qd"]]
+        skew = [d for d in ok_divs if used and all(d % u and u % d for u in used)]
+        if skew and rng.random() < 0.5:
+            d0 = rng.choice(skew)  # neither a multiple nor a divisor of the divisions used so far: the lcm is a new number
         qd = [(0, d0)]
         qchange = None
         if rng.random() < 0.3 and len(pm) >= 2:
             j = rng.randint(1, len(pm) - 1)
             d1 = rng.choice([d for d in ok_divs if d != d0])
+            skew = [d for d in ok_divs if d % d0 and d0 % d]
+            if skew and rng.random() < 0.5:
+                d1 = rng.choice(skew)
             qchange = (pm[j][0], d1)
 
         def tl(q, d0=d0, qchange=qchange):
@@ -157,6 +200,8 @@ def gen_case(rng, size, strict=None):
         notes = []
         for v in range(1, n_voices + 1):
             vno = v if rng.random() < 0.85 else v + rng.randint(1, 3)  # voice numbers need not be 1..n
+            if v == n_voices and rng.random() < 0.06:
+                vno = None  # a voice without a number
             pos = Fraction(0)
             if rng.random() < 0.2:
                 pos = Fraction(rng.randint(0, 3), 2)
@@ -195,25 +240,38 @@ def gen_case(rng, size, strict=None):
                     pitches.append(min(127, pitches[0] + rng.choice([3, 4, 7])))
                 grace = None
                 if rng.random() < 0.1:
-                    grace = rng.choice(pool)
+                    # now and then on the pitch of its main note (zero-length note on the very tick an equal-pitch note starts)
+                    grace = pitches[0] if rng.random() < 0.25 else rng.choice(pool)
                 for pitch in pitches:
                     on_q, off_q = pos - align, end - align
                     me = (pi, vno)
                     if any(p == pitch and on_q < b and a < off_q and same_tc(k, me) for p, a, b, k in taken if a != b) or \
-                            any(p == pitch and a == b and on_q <= a < off_q and same_tc(k, me) for p, a, b, k in taken):
+                            any(p == pitch and a == b and on_q < a < off_q and same_tc(k, me) for p, a, b, k in taken):
                         continue
                     taken.append((pitch, on_q, off_q, me))
                     # split into tied pieces at the barlines
                     cuts = [pos] + [b for b in bounds if pos < b < end] + [end]
+                    if rng.random() < 0.12:
+                        # a tie inside a measure as well (the chain is not only cut at barlines)
+                        mid = (pos + end) / 2
+                        try:
+                            tl(mid)
+                            if mid not in cuts:
+                                cuts = sorted(cuts + [mid])
+                        except AssertionError:
+                            pass
                     durs = [tl(cuts[i + 1]) - tl(cuts[i]) for i in range(len(cuts) - 1)]
                     notes.append({"t": tl(pos), "durs": durs, "pitch": pitch, "voice": vno})
                 if grace is not None:
                     gq = pos - align
-                    if not any(p == grace and a <= gq < b and same_tc(k, (pi, vno)) for p, a, b, k in taken if a != b) and grace not in pitches:
+                    if not any(p == grace and a < gq < b and same_tc(k, (pi, vno)) for p, a, b, k in taken if a != b):
                         taken.append((grace, gq, gq, (pi, vno)))
                         notes.append({"t": tl(pos), "durs": [], "pitch": grace, "voice": vno})
                 pos = end
-        if not notes:
+        if tacet == pi:
+            notes = []
+            taken = [x for x in taken if x[3][0] != pi]
+        elif not notes:
             p0 = 30 + pi
             taken.append((p0, -align, pm[0][1] - align, (pi, 1)))
             notes.append({"t": 0, "durs": [measures[0][1]], "pitch": p0, "voice": 1})
@@ -228,10 +286,16 @@ def gen_case(rng, size, strict=None):
         parts.append({"id": "P%d" % (pi + 1), "qd": [list(x) for x in qd], "measures": [list(x) for x in measures],
                       "tsigs": [list(x) for x in tsigs], "ksigs": [list(x) for x in ksigs], "tempi": [list(x) for x in tempi],
                       "notes": notes})
-    return {"parts": parts, "structure": rng.choice(STRUCTS[n_parts]),
+    structure = rng.choice(STRUCTS[n_parts])
+    containers = ["score", "score", "list"]
+    if structure == [0]:
+        containers += ["part", "part"]          # a bare Part as score_data
+    if len(structure) == 1 and isinstance(structure[0], list):
+        containers += ["group", "group"]        # a bare PartGroup as score_data
+    return {"parts": parts, "structure": structure,
             "mode": mode, "strict_overlap": strict, "velocity": rng.choice(VELS), "anacrusis": rng.choice(ANACRUSIS),
-            "minimum_ppq": rng.choice(MINPPQ), "to_file": rng.random() < 0.3,
-            "container": rng.choice(["score", "score", "list"])}
+            "minimum_ppq": rng.choice(MINPPQ), "out": rng.choice(["none"] * 5 + ["path"] * 2 + ["fileobj"] * 2),
+            "container": rng.choice(containers), "zero_velocity_offs": rng.random() < 0.35}
 
 
 # ----------------------------------------------------------------------------
@@ -358,32 +422,8 @@ def grouping_relation(case, mode):
 # running the implementation
 
 
-def run_impl(case, workdir):
-    """Returns dict with observed data or {'error': ...}."""
-    import mido
-    import warnings
-    import partitura.score as S
-    from partitura.io.exportmidi import save_score_midi
-    from partitura.io.importmidi import load_score_midi, load_performance_midi
-
-    warnings.filterwarnings("ignore")
-    parts, top = build(case)
-    data = S.Score(partlist=top, id="c04") if case["container"] == "score" else top
-    kw = dict(part_voice_assign_mode=case["mode"], velocity=case["velocity"],
-              anacrusis_behavior=case["anacrusis"], minimum_ppq=case["minimum_ppq"])
-    obs = {}
-    try:
-        if case["to_file"]:
-            path = os.path.join(workdir, "c04_case_%d.mid" % os.getpid())
-            save_score_midi(data, path, **kw)
-            mf = mido.MidiFile(path)
-            src = path
-        else:
-            mf = save_score_midi(data, None, **kw)
-            src = mf
-    except Exception as e:  # noqa
-        return {"error": "save_score_midi raised %s: %s" % (type(e).__name__, e)}, parts
-    obs["ppq"] = int(mf.ticks_per_beat)
+def read_messages(mf):
+    """(delta, kind, a, b, c) tuples of every track of a mido file."""
     tracks = []
     for tr in mf.tracks:
         ms = []
@@ -403,7 +443,54 @@ def run_impl(case, workdir):
             else:
                 ms.append((int(m.time), 9, 0, 0, 0))
         tracks.append(ms)
-    obs["tracks"] = tracks
+    return tracks
+
+
+def run_impl(case, workdir):
+    """Returns dict with observed data or {'error': ...}."""
+    import io
+    import mido
+    import warnings
+    import partitura.score as S
+    from partitura.io.exportmidi import save_score_midi
+    from partitura.io.importmidi import load_score_midi, load_performance_midi
+
+    warnings.filterwarnings("ignore")
+    parts, top = build(case)
+    cont = case["container"]
+    if cont == "score":
+        data = S.Score(partlist=top, id="c04")
+    elif cont in ("part", "group"):
+        data = top[0]  # a bare Part / PartGroup
+    else:
+        data = top
+    kw = dict(part_voice_assign_mode=case["mode"], velocity=case["velocity"],
+              anacrusis_behavior=case["anacrusis"], minimum_ppq=case["minimum_ppq"])
+    out = case.get("out", "path" if case.get("to_file") else "none")
+    obs = {}
+    try:
+        if out == "path":
+            path = os.path.join(workdir, "c04_case_%d.mid" % os.getpid())
+            r = save_score_midi(data, path, **kw)
+            mf = mido.MidiFile(path)
+            src = path
+        elif out == "fileobj":
+            buf = io.BytesIO()
+            r = save_score_midi(data, buf, **kw)
+            mf = mido.MidiFile(file=io.BytesIO(buf.getvalue()))
+            src = mf
+        else:
+            mf = save_score_midi(data, None, **kw)
+            r = None
+            src = mf
+        if out != "none" and r is not None:
+            return {"error": "save_score_midi returned %r although an output was given" % (r,)}, parts
+        if not isinstance(mf, mido.MidiFile):
+            return {"error": "save_score_midi(out=None) returned %r, not a MidiFile" % (mf,)}, parts
+    except Exception as e:  # noqa
+        return {"error": "save_score_midi raised %s: %s" % (type(e).__name__, e)}, parts
+    obs["ppq"] = int(mf.ticks_per_beat)
+    obs["tracks"] = read_messages(mf)
     # import as a score
     try:
         sc = load_score_midi(src, part_voice_assign_mode=case["mode"])
@@ -412,6 +499,7 @@ def run_impl(case, workdir):
         for gi, node in enumerate(sc.part_structure):
             for p in S.iter_parts([node]):
                 top_of[p.id] = gi if isinstance(node, S.PartGroup) else -1
+        again = []
         for p in sc.parts:
             pn = int(p.id[1:]) - 1
             igroups.append((pn, top_of[p.id]))
@@ -427,9 +515,38 @@ def run_impl(case, workdir):
                 iks.append((pn, int(ks.start.t), int(ks.fifths), str(ks.mode)))
             for tp in p.iter_all(S.Tempo):
                 itempo.append((pn, int(tp.start.t), float(tp.bpm), str(tp.unit)))
+            # the imported part is a score as well (one divisions value, ties over barlines made by
+            # tie_notes): export it once more, on its own, and read the ticks of its notes
+            try:
+                mf2 = save_score_midi(p, None, part_voice_assign_mode=0, velocity=case["velocity"], anacrusis_behavior="shift")
+                again.append((pn, int(mf2.ticks_per_beat), file_notes([absolute(tr) for tr in read_messages(mf2)])[0]))
+            except Exception as e:  # noqa
+                again.append((pn, -1, "save_score_midi of the imported part raised %s: %s" % (type(e).__name__, e)))
         obs["inotes"], obs["igroups"], obs["its"], obs["iks"], obs["itempo"] = inotes, igroups, its, iks, itempo
+        obs["again"] = again
     except Exception as e:  # noqa
         obs["import_error"] = "load_score_midi raised %s: %s" % (type(e).__name__, e)
+    # the same file with every note_off written as a note_on with velocity 0 (equivalent MIDI): both
+    # importers must read the same notes
+    if case.get("zero_velocity_offs"):
+        try:
+            mz = mido.MidiFile(type=mf.type, ticks_per_beat=mf.ticks_per_beat)
+            for tr in mf.tracks:
+                tz = mido.MidiTrack()
+                for m in tr:
+                    tz.append(mido.Message("note_on", note=m.note, velocity=0, channel=m.channel, time=m.time) if m.type == "note_off" else m.copy())
+                mz.tracks.append(tz)
+            scz = load_score_midi(mz, part_voice_assign_mode=case["mode"])
+            zn = []
+            for p in scz.parts:
+                for r in p.note_array():
+                    zn.append((int(p.id[1:]) - 1, int(r["voice"]), int(r["onset_div"]), int(r["duration_div"]), int(r["pitch"])))
+            obs["inotes_zv"] = zn
+            pz = load_performance_midi(mz)
+            obs["pnotes_zv"] = [(int(n["track"]), int(n["channel"]), int(n["note_on_tick"]), int(n["note_off_tick"]), int(n["midi_pitch"]),
+                                 int(n["velocity"])) for pp in pz.performedparts for n in pp.notes]
+        except Exception as e:  # noqa
+            obs["zv_error"] = "importing the file with zero-velocity note offs raised %s: %s" % (type(e).__name__, e)
     # import as a performance
     try:
         pf = load_performance_midi(src)
@@ -442,6 +559,30 @@ def run_impl(case, workdir):
     except Exception as e:  # noqa
         obs["perf_error"] = "load_performance_midi raised %s: %s" % (type(e).__name__, e)
     return obs, parts
+
+
+def file_notes(abs_tracks):
+    """The oracle's own reading of the written tracks (absolute ticks): every note_on must find its
+    (channel, pitch) silent, every note_off must find it sounding.  Returns (notes, complaints);
+    notes = (track, channel, on, off, pitch)."""
+    notes, bad = [], []
+    for ti, tr in enumerate(abs_tracks):
+        sounding = {}
+        for m in tr:
+            if m[1] == 1 and m[4] > 0:
+                k = (m[2], m[3])
+                if k in sounding:
+                    bad.append("track %d tick %d: note_on for channel %d pitch %d which sounds since tick %d" % (ti, m[0], m[2], m[3], sounding[k]))
+                sounding[k] = m[0]
+            elif m[1] == 0 or (m[1] == 1 and m[4] == 0):
+                k = (m[2], m[3])
+                if k not in sounding:
+                    bad.append("track %d tick %d: note_off for channel %d pitch %d which does not sound" % (ti, m[0], m[2], m[3]))
+                else:
+                    notes.append((ti, m[2], sounding.pop(k), m[0], m[3]))
+        for k, t in sorted(sounding.items()):
+            bad.append("track %d: channel %d pitch %d sounding since tick %d is never ended" % (ti, k[0], k[1], t))
+    return notes, bad
 
 
 def model_input(case, parts):
@@ -459,11 +600,17 @@ def model_input(case, parts):
             if ts is not None:
                 m1t = (int(m1.end.t), int(ts.beats), int(ts.beat_type))
         tsm = part.time_signature_map(0)
-        notes = [(int(n.start.t), int(n.duration_tied), int(n.midi_pitch), int(n.voice)) for n in part.notes_tied]
+        vz = lambda v: -1 if v is None else int(v)  # noqa: E731
+        notes = [(int(n.start.t), int(n.duration_tied), int(n.midi_pitch), vz(n.voice)) for n in part.notes_tied]
+        # the raw Note objects, for the model of notes_tied / duration_tied
+        objs = list(part.iter_all(S.Note, include_subclasses=True))
+        idx = {id(o): i for i, o in enumerate(objs)}
+        pieces = [(int(o.start.t), int(o.end.t) - int(o.start.t), int(o.midi_pitch), vz(o.voice), o.tie_prev is not None,
+                   None if o.tie_next is None else idx.get(id(o.tie_next), -1)) for o in objs]
         tsigs = [(int(ts.start.t), int(ts.beats), int(ts.beat_type)) for ts in part.iter_all(S.TimeSignature)]
         ksigs = [(int(ks.start.t), key_code(ks.name)) for ks in part.iter_all(S.KeySignature)]
         tempi = [(int(tp.start.t), int(tp.microseconds_per_quarter)) for tp in part.iter_all(S.Tempo)]
-        out.append((gids[pi], pi, qd, m1t, (int(tsm[0]), int(tsm[1])), notes, tsigs, ksigs, tempi))
+        out.append((gids[pi], pi, qd, m1t, (int(tsm[0]), int(tsm[1])), notes, tsigs, ksigs, tempi, pieces))
     return out
 
 
@@ -472,7 +619,7 @@ def cmsg(m):
 
 
 def coq_part(p):
-    g, pid, qd, m1t, ts0, notes, tsigs, ksigs, tempi = p
+    g, pid, qd, m1t, ts0, notes, tsigs, ksigs, tempi = p[:9]
     return "(mkPart %s %s %s %s %s %s %s %s %s)" % (
         cz(g), cz(pid), clist([ctuple([cz(a), cz(b)]) for a, b in qd]),
         "None" if m1t is None else "(Some %s)" % ctuple([cz(x) for x in m1t]),
@@ -489,17 +636,42 @@ def coq_case(case, minput, obs):
     tracks = clist([clist([cmsg(m) for m in tr]) for tr in obs["tracks"]])
     inotes = clist([cmsg(n) for n in obs.get("inotes", [])])
     igroups = clist([ctuple([cz(a), cz(b)]) for a, b in obs.get("igroups", [])])
-    return "(%s, %s, %s, %s, %s, %s)" % (cfg, parts, cz(obs["ppq"]), tracks, inotes, igroups)
+    tied = clist([ctuple([clist([coq_piece(pc) for pc in p[9]]), clist([ctuple([cz(x) for x in n]) for n in p[5]])]) for p in minput])
+    its = clist(["(%s, (%s, %s, %s))" % (cz(pn), cz(t), cz(b), cz(bt)) for pn, t, b, bt in obs.get("its", [])])
+    iks = clist(["(%s, (%s, %s, 0))" % (cz(pn), cz(t), cz(key_code(key_name(f, m)))) for pn, t, f, m in obs.get("iks", [])])
+    perf = clist([ctuple([cz(n[0]), cz(n[1]), cz(n[2]), cz(n[4]), cz(n[3] - n[2])]) for n in obs.get("pnotes", [])])
+    return "(%s, %s, %s, %s, %s, %s, %s, %s, %s, %s)" % (cfg, parts, cz(obs["ppq"]), tracks, inotes, igroups, tied, its, iks, perf)
 
 
+def coq_piece(pc):
+    s, d, p, v, hp, nx = pc
+    return "(%s, %s, %s, %s, %s, %s)" % (cz(s), cz(d), cz(p), cz(v), "true" if hp else "false",
+                                         "None" if nx is None else "(Some %s)" % cz(nx))
+
+
+SHARD = 70
+PAT = "fun c => match c with (cfg, ps, ppq, trs, ino, igr, tied, its, iks, perf) => match cfg with (mode, vel, an, mn) => %s end end"
 CHECKERS = {
-    "export": "fun c => match c with (cfg, ps, ppq, trs, ino, igr) => match cfg with (mode, vel, an, mn) => "
-              "check_export mode vel an mn ps ppq trs end end",
-    "import": "fun c => match c with (cfg, ps, ppq, trs, ino, igr) => match cfg with (mode, vel, an, mn) => "
-              "check_import mode trs ino igr end end",
-    "alternating": "fun c => match c with (cfg, ps, ppq, trs, ino, igr) => "
-                   "forallb (fun tr => alternating (fun _ => false) tr) trs end",
+    "export": "check_export mode vel an mn ps ppq trs",
+    "import": "check_import mode trs ino igr",
+    "alternating": "forallb (fun tr => alternating (fun _ => false) tr) trs",
+    "sequence": "check_stream mode vel an mn ps trs",
+    "tied": "forallb (fun x => check_tied (fst x) (snd x)) tied",
+    "import_signatures": "check_import_sigs mode trs its iks",
+    "performance": "check_perf trs perf",
 }
+ORDER = ["export", "import", "alternating", "sequence", "tied", "import_signatures", "performance"]
+WHAT = {"export": "model ppq / ticks / track+channel numbering / delta times = messages written by save_score_midi",
+        "import": "model pairing + assign_group_part_voice = notes, parts, voices, groups of load_score_midi",
+        "alternating": "every (channel, pitch) stream of every written track alternates note on / note off (test of the order_ok hypothesis of pairing_inverts)",
+        "sequence": "model message sequence of every track (ticks ascending; per tick signatures/tempi, note offs, zero-length notes, note ons) = the written "
+                    "track: same messages, same tick sequence, same sub-stream for every (channel, pitch) key",
+        "tied": "model notes_tied / duration_tied on the raw Note objects (tie_prev, tie_next) = the notes and durations the exporter reads",
+        "performance": "model message loop (import_tracks: running tick + sounding-note table per track) = (track, channel, on tick, pitch, length) of "
+                       "the notes of load_performance_midi",
+        "import_signatures": "model track -> part mapping of time / key signatures (tracks without notes global, sanitize rule, default 4/4) = "
+                             "signatures of every part of load_score_midi"}
+IMPORTS = "From PV Require Import Model.C04 Model.C04_stream."
 
 
 # ----------------------------------------------------------------------------
@@ -549,20 +721,45 @@ def oracle(case, obs):
         bad.append(("velocity", "note_on velocities %s, requested %d" % (vels, case["velocity"])))
     if any(m[1] == 9 for tr in tracks for m in tr):
         bad.append(("messages", "unexpected message types in the file"))
+    # the written sequence, read by the oracle itself: every (channel, pitch) alternates on / off and the
+    # notes so delimited are the score's sounding notes
+    fnotes, fbad = file_notes(tracks)
+    if fbad:
+        bad.append(("stream", "; ".join(fbad[:3])))
+    f_ms = Counter((n[2], n[3], n[4]) for n in fnotes)
+    e_full = Counter((n[2], n[3], n[4]) for n in exp_notes)
+    if f_ms != e_full and not fbad:
+        bad.append(("file_notes", "notes delimited by the written note on/off messages (on, off, pitch): extra %s missing %s"
+                    % (sorted((f_ms - e_full).items())[:4], sorted((e_full - f_ms).items())[:4])))
+    uniq, f_by, e_by = match_notes(exp_notes, fnotes)
+    if not fbad and f_ms == e_full:
+        bad += oracle_track_channel(case, uniq, len(tracks))
+    has_notes = [bool(ps["notes"]) for ps in parts]
     # O4 on the file: signatures / tempi at the same musical positions
     exp_ks = Counter()
     exp_ts = Counter()
     exp_tempo = {}
     all_meta_ts = Counter((m[0], m[2], m[3]) for tr in tracks for m in tr if m[1] == 2)
     all_meta_ks = Counter((m[0], m[2]) for tr in tracks for m in tr if m[1] == 3)
+    part_ts, part_ks = [], []  # per part: the signatures a track holding its notes must carry
     for pi, ps in enumerate(parts):
+        pts, pks = set(), set()
         for i, (t, b, bt) in enumerate(ps["tsigs"]):
             pos = 0 if (case["anacrusis"] == "pad_bar" and i == 0) else int(tk(pi, t))
-            exp_ts[(pos, b, bt)] += 1
+            pts.add((pos, b, bt))
         for t, f, m in ps["ksigs"]:
-            exp_ks[(int(tk(pi, t)), key_code(key_name(f, m)))] += 1
+            pks.add((int(tk(pi, t)), key_code(key_name(f, m))))
+        part_ts.append(pts)
+        part_ks.append(pks)
+        if has_notes[pi]:  # a part without notes has no track to carry its signatures
+            for x in pts:
+                exp_ts[x] += 1
+            for x in pks:
+                exp_ks[x] += 1
         for t, bpm in ps["tempi"]:
             exp_tempo[int(tk(pi, t))] = bpm
+    if not fbad and f_ms == e_full:
+        bad += oracle_track_sigs(case, tracks, uniq, f_by, e_by, part_ts, part_ks)
     if not exp_tempo:
         exp_tempo[0] = 120
     elif 0 not in exp_tempo and not parts[0]["tempi"]:
@@ -573,7 +770,7 @@ def oracle(case, obs):
         if set(all_meta_ts) != set(exp_ts):
             bad.append(("time_signature", "time signatures (tick, beats, type) %s, expected %s" % (sorted(all_meta_ts), sorted(exp_ts))))
     else:
-        bad += oracle_tsc(case, tracks, tk)
+        bad += oracle_tsc(case, tracks, tk, uniq)
     tempi = [(m[0], m[2]) for tr in tracks for m in tr if m[1] == 4]
     if any(m[1] == 4 for tr in tracks[1:] for m in tr):
         bad.append(("tempo", "tempo events outside the first track"))
@@ -602,9 +799,22 @@ def oracle(case, obs):
         iks = {(t, key_code(key_name(f, m))) for _, t, f, m in obs["iks"]}
         if iks != set(exp_ks):
             bad.append(("import_key_signature", "imported key signatures %s, expected %s" % (sorted(iks), sorted(exp_ks))))
+        if not fbad and got == e_ms:
+            bad += oracle_import_sigs(case, tracks, fnotes, obs)
+            bad += oracle_again(case, obs, ppq, sum(has_notes))
         itp = sorted((t, bpm) for _, t, bpm, _ in obs["itempo"])
         if [t for t, _ in itp] != sorted(exp_tempo) or any(abs(bpm - exp_tempo[t]) > exp_tempo[t] * 1e-5 for t, bpm in itp):
             bad.append(("import_tempo", "imported tempi %s, expected %s" % (itp, sorted(exp_tempo.items()))))
+    if "zv_error" in obs:
+        bad.append(("import_raises", obs["zv_error"]))
+    if "inotes_zv" in obs and "inotes" in obs and Counter(obs["inotes_zv"]) != Counter(obs["inotes"]):
+        d1, d2 = Counter(obs["inotes_zv"]), Counter(obs["inotes"])
+        bad.append(("zero_velocity", "load_score_midi reads other notes (part, voice, onset, duration, pitch) when the note offs are written as note_on with "
+                    "velocity 0: extra %s missing %s" % (sorted((d1 - d2).items())[:4], sorted((d2 - d1).items())[:4])))
+    if "pnotes_zv" in obs and "pnotes" in obs and Counter(obs["pnotes_zv"]) != Counter(obs["pnotes"]):
+        d1, d2 = Counter(obs["pnotes_zv"]), Counter(obs["pnotes"])
+        bad.append(("zero_velocity", "load_performance_midi reads other notes (track, channel, on, off, pitch, velocity) when the note offs are written as "
+                    "note_on with velocity 0: extra %s missing %s" % (sorted((d1 - d2).items())[:4], sorted((d2 - d1).items())[:4])))
     if "perf_error" in obs:
         bad.append(("import_raises", obs["perf_error"]))
     else:
@@ -618,7 +828,125 @@ def oracle(case, obs):
     return bad
 
 
-def oracle_tsc(case, tracks, tk):
+def match_notes(exp_notes, fnotes):
+    """Expected notes (part, voice, on, off, pitch) matched to the notes read from the file
+    (track, channel, on, off, pitch) through (on, off, pitch); only unambiguous matches."""
+    f_by, e_by = {}, {}
+    for n in fnotes:
+        f_by.setdefault((n[2], n[3], n[4]), []).append((n[0], n[1]))
+    for n in exp_notes:
+        e_by.setdefault((n[2], n[3], n[4]), []).append(n)
+    uniq = [(e_by[k][0], f_by[k][0]) for k in sorted(e_by) if len(e_by[k]) == 1 and len(f_by.get(k, [])) == 1]
+    return uniq, f_by, e_by
+
+
+def mode_labels(case):
+    """(channel label, track label) of a note key (part index, voice) under the documented mode."""
+    mode = case["mode"]
+    gids = group_ids(case)
+
+    def tc(pi, voice):
+        return {0: (pi, voice), 1: (gids[pi], pi), 2: (pi,), 3: (pi,), 4: (), 5: (pi, voice)}[mode]
+
+    def tr(pi, voice):
+        return {0: (pi,), 1: (gids[pi],), 2: (), 3: (pi,), 4: (), 5: (pi, voice)}[mode]
+
+    return tc, tr
+
+
+def oracle_track_channel(case, uniq, n_tracks):
+    """The written file itself: two notes share (track, channel) iff the mode relates their
+    (group, part, voice) keys, share a track iff the mode puts them in one track; no empty track."""
+    tc, tr = mode_labels(case)
+    fwd, bwd, tf, tb = {}, {}, {}, {}
+    for (pi, voice, on, off, pitch), (t, ch) in uniq:
+        a, b = tc(pi, voice), tr(pi, voice)
+        if fwd.setdefault(a, (t, ch)) != (t, ch) or bwd.setdefault((t, ch), a) != a:
+            return [("track_channel", "mode %d: note (part %d, voice %s, tick %d, pitch %d) is in track %d channel %d; key class %s <-> %s, "
+                     "(track, channel) %s <-> %s" % (case["mode"], pi, voice, on, pitch, t, ch, a, fwd.get(a), (t, ch), bwd.get((t, ch))))]
+        if tf.setdefault(b, t) != t or tb.setdefault(t, b) != b:
+            return [("track_channel", "mode %d: note (part %d, voice %s, tick %d, pitch %d) is in track %d; track class %s <-> %s, track %d <-> %s"
+                     % (case["mode"], pi, voice, on, pitch, t, b, tf.get(b), t, tb.get(t)))]
+    want = len({tr(pi, n["voice"]) for pi, ps in enumerate(case["parts"]) for n in ps["notes"]})
+    if n_tracks != want:
+        return [("track_channel", "mode %d: %d tracks written, the score has %d track classes" % (case["mode"], n_tracks, want))]
+    return []
+
+
+def candidates(uniq, f_by, e_by, n_tracks):
+    """per track: parts surely having notes in it, parts possibly having notes in it"""
+    pmin = [set() for _ in range(n_tracks)]
+    pmax = [set() for _ in range(n_tracks)]
+    for (pi, _, _, _, _), (t, _) in uniq:
+        pmin[t].add(pi)
+    for k, ns in e_by.items():
+        for (t, _) in f_by.get(k, []):
+            for n in ns:
+                pmax[t].add(n[0])
+    return pmin, pmax
+
+
+def oracle_track_sigs(case, tracks, uniq, f_by, e_by, part_ts, part_ks):
+    """Every track carries the key (and, except under time_sig_change, time) signatures of exactly the
+    parts that have notes in it, at their ticks."""
+    pmin, pmax = candidates(uniq, f_by, e_by, len(tracks))
+    for ti, tr in enumerate(tracks):
+        for kind, name, per_part in ((3, "key_signature", part_ks), (2, "time_signature", part_ts)):
+            if kind == 2 and case["anacrusis"] == "time_sig_change":
+                continue
+            got = {(m[0], m[2]) if kind == 3 else (m[0], m[2], m[3]) for m in tr if m[1] == kind}
+            lo = set().union(*[per_part[pi] for pi in pmin[ti]]) if pmin[ti] else set()
+            hi = set().union(*[per_part[pi] for pi in pmax[ti]]) if pmax[ti] else set()
+            if not (lo <= got <= hi):
+                return [(name, "track %d holds notes of parts %s and carries the %ss %s; the signatures of these parts are %s"
+                         % (ti, sorted(pmax[ti]), name, sorted(got), sorted(hi)))]
+    return []
+
+
+def oracle_import_sigs(case, tracks, fnotes, obs):
+    """Every imported part has the signatures of exactly the tracks its notes were read from."""
+    f_by = {}
+    for n in fnotes:
+        f_by.setdefault((n[2], n[3] - n[2], n[4]), set()).add(n[0])
+    i_cnt = Counter((n[2], n[3], n[4]) for n in obs["inotes"])
+    tmin, tmax = {}, {}
+    for pn, voice, on, dur, pitch in obs["inotes"]:
+        c = f_by.get((on, dur, pitch), set())
+        tmax.setdefault(pn, set()).update(c)
+        tmin.setdefault(pn, set())
+        if len(c) == 1 and i_cnt[(on, dur, pitch)] == 1:
+            tmin[pn].update(c)
+    for kind, name, lst in ((3, "import_key_signature", [(pn, (t, key_code(key_name(f, m)))) for pn, t, f, m in obs["iks"]]),
+                            (2, "import_time_signature", [(pn, (t, b, bt)) for pn, t, b, bt in obs["its"]])):
+        per_track = [{(m[0], m[2]) if kind == 3 else (m[0], m[2], m[3]) for m in tr if m[1] == kind} for tr in tracks]
+        for pn in sorted(tmax):
+            got = {x for q, x in lst if q == pn}
+            lo = set().union(*[per_track[t] for t in tmin[pn]]) if tmin[pn] else set()
+            hi = set().union(*[per_track[t] for t in tmax[pn]]) if tmax[pn] else set()
+            if kind == 2 and not hi:
+                lo = hi = {(0, 4, 4)}
+            if not (lo <= got <= hi):
+                return [(name, "imported part P%d read its notes from tracks %s and has the %ss %s; these tracks carry %s"
+                         % (pn + 1, sorted(tmax[pn]), name[7:], sorted(got), sorted(hi)))]
+    return []
+
+
+def oracle_again(case, obs, ppq, n_sounding_parts):
+    """The imported parts are scores as well: exporting each of them again gives the notes it holds."""
+    if case["mode"] == 2 and n_sounding_parts >= 2:
+        return []  # C04-K1: the notes of several parts sit in one voice of one part, equal pitches may overlap there
+    for pn, ppq2, notes2 in obs.get("again", []):
+        if isinstance(notes2, str):
+            return [("reexport", "P%d: %s" % (pn + 1, notes2))]
+        mine = Counter((n[2], n[2] + n[3], n[4]) for n in obs["inotes"] if n[0] == pn)
+        got = Counter((n[2], n[3], n[4]) for n in notes2)
+        if ppq2 != ppq or mine != got:
+            return [("reexport", "exporting the imported part P%d (divisions %d) again: ticks per quarter %d, notes (on, off, pitch) extra %s missing %s"
+                     % (pn + 1, ppq, ppq2, sorted((got - mine).items())[:4], sorted((mine - got).items())[:4]))]
+    return []
+
+
+def oracle_tsc(case, tracks, tk, uniq):
     """time_sig_change: the signature in force at the start of every measure is the score's when the
     measure has its nominal length and fits the measure (same beat type) when it does not; the
     score's own signatures at regular measures are written at their positions."""
@@ -627,7 +955,10 @@ def oracle_tsc(case, tracks, tk):
         # tracks carrying this part's signatures: those that contain a time signature at all (every
         # track of the part gets them); in-force lookup over the union of all tracks is ambiguous
         # only when parts disagree, which the generator does not produce
-        evs = sorted({(m[0], m[2], m[3]) for tr in tracks for m in tr if m[1] == 2})
+        mine = sorted({t for (n, (t, _)) in uniq if n[0] == pi})
+        if not mine:
+            continue  # no note of this part could be located in the file
+        evs = sorted({(m[0], m[2], m[3]) for t in mine for m in tracks[t] if m[1] == 2})
         if len({e[0] for e in evs}) != len(evs):
             bad.append(("time_signature", "two different time signatures at one tick: %s" % evs))
             continue
@@ -728,24 +1059,29 @@ def fail_kinds(case, workdir):
 
 
 def run(ctx):
-    ctx.rule = ("generated scores: 1-3 parts in 0-2 levels of part groups, divisions from {1,2,3,4,6,8,12,16,24,48,480} mixed across and "
-                "inside parts, 1-3 voices, tuplet durations 1/3 2/3 1/6 1/5 2/5 1/12, pickups (also differing between parts), an "
-                "irregular inner measure, grace notes, ties over barlines, equal pitches abutting across voices/parts, no two "
-                "equal-pitch notes overlapping anywhere; configuration drawn uniformly from 6 modes x 3 anacrusis behaviours x "
-                "4 velocities x 4 minimum_ppq x {MidiFile object, file}.  Non-trivial = the score has a note whose onset in quarters "
-                "has a denominator that is not a power of two (its tick is not exact in binary floating point).")
+    ctx.rule = ("generated scores (plus the hand-written ones of corpus/C04): 1-3 parts in 0-2 levels of part groups (parts of one group at "
+                "different depths included), one of them possibly without notes, divisions from {1,2,3,4,6,8,12,16,24,48,480} mixed across and "
+                "inside parts (half of the time neither multiple nor divisor of those used so far), 1-3 voices (numbers need not be 1..n, one may "
+                "be None), tuplet durations 1/3 2/3 1/6 1/5 2/5 1/12, pickups (also differing between parts), up to two irregular inner measures "
+                "(shorter or longer, in a row, next to the pickup), grace notes (also on the pitch of the note starting or ending at their tick), "
+                "chains of tied Note objects over barlines and inside measures, equal pitches abutting across voices/parts, no two equal-pitch "
+                "notes overlapping within one (track, channel) of the chosen mode (35 %: anywhere); configuration drawn from 6 modes x 3 anacrusis "
+                "behaviours x 5 velocities x 7 minimum_ppq x {MidiFile returned, path, file object} x {Score, list, bare Part, bare PartGroup} x "
+                "{file re-read with zero-velocity note offs}.  Non-trivial = the score has a note whose onset in quarters has a denominator that "
+                "is not a power of two (its tick is not exact in binary floating point).")
     ctx.trusted = ["Coq 8.16.1 kernel incl. vm_compute", "mido (byte encoding of MIDI files, exercised by the file round trip)",
                    "harness/props/c04.py: generator, object builder, printers, the Python oracle",
                    "float64: |ppq*(quarter-ftp) computed in floating point - exact value| < 1/2 for the tick sizes generated"]
-    ctx.assumptions = ["every part starts at time 0 with a time signature and a measure and has at least one note",
+    ctx.assumptions = ["every part starts at time 0 with a time signature and a measure; at least one part has a note",
                        "pickup and irregular measures last a whole number of beats (upstream TODO for time_sig_change)",
                        "parts of one score share the measure grid and time signatures; under time_sig_change the time signatures are "
-                       "judged by the oracle (signature in force at each measure start), not by the Coq model",
-                       "a grace note never has the pitch of a note sounding or starting at its onset in the same score",
+                       "judged by the oracle (signature in force at each measure start, per part in the tracks holding its notes), not by the Coq model",
+                       "a grace note never has the pitch of a note sounding across its onset in the same track and channel (it may sit on either end of one)",
                        "MIDI channel numbers stay below 16 (at most 3 voices / parts per track)"]
     register_known(ctx)
-    ok, why = ctx.coq_props(expect_min=20)
-    n = {"quick": 260, "thorough": 6000}.get(ctx.tier, 260)
+    ok, why = ctx.coq_props(expect_min=34)
+    ctx.log("proofs checked: %s" % ("ok" if ok else why[:200]))
+    n = {"quick": 260, "thorough": 4500}.get(ctx.tier, 260)
     cases = corpus_cases()
     for i in range(n):
         cases.append(gen_case(ctx.rng, 1 if i % 3 else 3))
@@ -780,10 +1116,47 @@ def run(ctx):
         ctx.count("mode:%d" % case["mode"])
         ctx.count("anacrusis:" + case["anacrusis"])
         ctx.count("parts:%d" % len(case["parts"]))
+        ctx.count("container:" + case["container"])
+        ctx.count("out:" + case.get("out", "path" if case.get("to_file") else "none"))
+        ctx.count("velocity:%d" % case["velocity"])
+        ctx.count("minimum_ppq:%d" % case["minimum_ppq"])
+        if any(not p["notes"] for p in case["parts"]):
+            ctx.count("has a part without notes")
+        if any(n_["voice"] is None for p in case["parts"] for n_ in p["notes"]):
+            ctx.count("has a voice None")
+        try:
+            e_ppq, e_ftp, e_an, _ = expectation(case)
+            l_ = 1
+            for p in case["parts"]:
+                for _, q in p["qd"]:
+                    l_ = l_ * q // math.gcd(l_, q)
+            if e_ppq != l_:
+                ctx.count("ppq doubled")
+            if l_ != max(q for p in case["parts"] for _, q in p["qd"]):
+                ctx.count("lcm of divisions > largest divisions")
+            if e_ftp < 0:
+                ctx.count("pickup")
+            if len(set(e_an)) > 1:
+                ctx.count("pickups differ between parts")
+            irr = 0
+            for (s_, e_) in case["parts"][0]["measures"][1:]:
+                ps0 = case["parts"][0]
+                inforce = [x for x in sorted(ps0["tsigs"]) if x[0] <= s_][-1]
+                if qraw(ps0["qd"], e_) - qraw(ps0["qd"], s_) != Fraction(4 * inforce[1], inforce[2]):
+                    irr += 1
+            if irr:
+                ctx.count("irregular inner measure")
+            if irr > 1:
+                ctx.count("two or more irregular inner measures")
+        except Exception:  # noqa
+            pass
         if any(len(p["qd"]) > 1 for p in case["parts"]):
             ctx.count("divisions change inside a part")
         if any(not n_["durs"] for p in case["parts"] for n_ in p["notes"]):
             ctx.count("has grace notes")
+        if any(not g_["durs"] and any(n_["durs"] and n_["t"] == g_["t"] and n_["pitch"] == g_["pitch"] for n_ in p["notes"])
+               for p in case["parts"] for g_ in p["notes"]):
+            ctx.count("grace note on the pitch of a note starting at its onset")
         if any(len(n_["durs"]) > 1 for p in case["parts"] for n_ in p["notes"]):
             ctx.count("has ties over barlines")
         if is_nontrivial(case):
@@ -801,7 +1174,7 @@ def run(ctx):
                     found += 1
             if kinds != ["grouping"]:
                 continue
-        if "error" in obs or "import_error" in obs:
+        if "error" in obs or "import_error" in obs or "perf_error" in obs:
             continue
         try:
             terms.append(coq_case(case, model_input(case, parts), obs))
@@ -810,23 +1183,40 @@ def run(ctx):
             ctx.violation("cannot read the model input from the score objects: %s" % e, {"case": case, "kinds": ["harness"]})
         if len(ctx.samples) < 2:
             ctx.sample({"case": case, "observed_ppq": obs["ppq"], "tracks": len(obs["tracks"])})
+    ctx.log("implementation and oracle ran on %d cases" % len(cases))
     if not ok:
         if not found:
             ctx.violation("proof obligations of Props/C04.v no longer check: " + why, {"theorem_or_build": why}, no_input=True)
         return
-    for name in ("export", "import", "alternating"):
-        try:
-            failing = ctx.coq_failing(name, "From PV Require Import Model.C04.", "", terms, CHECKERS[name], shard=60)
-        except RuntimeError as e:
-            ctx.obligation("correspondence: %s" % name, False, str(e)[-1500:])
-            ctx.violation("Coq rejected the generated cases for the %s correspondence: %s" % (name, str(e)[-600:]), {"kinds": ["harness"]}, no_input=True)
-            continue
-        what = {"export": "model ppq / ticks / track+channel numbering / delta times = messages written by save_score_midi",
-                "import": "model pairing + assign_group_part_voice = notes, parts, voices, groups of load_score_midi",
-                "alternating": "every (channel, pitch) stream of every written track alternates note on / note off (test of the order_ok hypothesis of pairing_inverts)"}[name]
-        ctx.obligation("correspondence: %s on %d cases" % (what, len(terms)), not failing, failing[:5])
-        for i in failing[:3]:
-            ctx.violation("model and implementation disagree (%s)" % name, {"case": kept[i], "kinds": ["correspondence:" + name]})
+    # one pass with the conjunction of all checkers (the case terms are parsed once); the checkers are
+    # evaluated one by one only on the cases the conjunction rejects, to name the disagreeing part
+    allchk = PAT % " && ".join("(%s)" % CHECKERS[n_] for n_ in ORDER)
+    try:
+        failing = ctx.coq_failing("all", IMPORTS, "", terms, allchk, shard=SHARD)
+    except RuntimeError as e:
+        for name in ORDER:
+            ctx.obligation("correspondence: %s" % WHAT[name], False, str(e)[-1500:])
+        ctx.violation("Coq rejected the generated cases for the correspondence: %s" % str(e)[-600:], {"kinds": ["harness"]}, no_input=True)
+        return
+    ctx.log("correspondence evaluated on %d cases, %d rejected" % (len(terms), len(failing)))
+    per = {name: [] for name in ORDER}
+    if failing:
+        sub = failing[:40]
+        for name in ORDER:
+            try:
+                f2 = ctx.coq_failing(name, IMPORTS, "", [terms[i] for i in sub], PAT % CHECKERS[name], shard=SHARD)
+                per[name] = [sub[j] for j in f2]
+            except RuntimeError as e:
+                per[name] = list(sub)
+        unnamed = [i for i in failing if not any(i in per[n_] for n_ in ORDER)]
+        per[ORDER[0]] += unnamed
+    reported = 0
+    for name in ORDER:
+        ctx.obligation("correspondence: %s on %d cases" % (WHAT[name], len(terms)), not per[name], per[name][:5])
+        for i in per[name][:3]:
+            if reported < 6:
+                ctx.violation("model and implementation disagree (%s)" % name, {"case": kept[i], "kinds": ["correspondence:" + name]})
+                reported += 1
 
 
 def corpus_cases():
